@@ -1267,9 +1267,12 @@ class Model(Object):
         self.objective.direction = {"maximize": "max", "minimize": "min"}.get(
             objective_sense, original_direction
         )
-        self.slim_optimize()
-        solution = get_solution(self, raise_error=raise_error)
-        self.objective.direction = original_direction
+        try:
+            self.slim_optimize()
+            solution = get_solution(self, raise_error=raise_error)
+        finally:
+            # also when the solver or the status check raises
+            self.objective.direction = original_direction
         return solution
 
     def repair(
